@@ -391,7 +391,7 @@ func (g *Gen) value(typ string) AV {
 	r := g.R
 	switch typ {
 	case "S":
-		if g.P.Unusual && r.Chance(0.02) {
+		if g.P.Unusual && (r.Chance(0.02) || g.P.Prop == "C19" && r.Chance(0.1)) {
 			return S(strings.Repeat("long-string-", 420)) // about 5 KB
 		}
 		if r.Chance(0.3) {
